@@ -15,14 +15,14 @@ META = {
     "strings of 0..2 symbolic bytes, text of 0..1 symbolic ASCII characters, empty array/map, null/true/false, float, simple value, tag with symbolic number, semantic tag) and "
     "raw input bytes of length 1 (every value); depth 1: arrays of 1-2 children, maps with one entry whose key is a registered/unregistered code or a text/bytes key, tags - "
     "children any scalar by selector; length pre-check: every 9-byte input whose initial byte announces a 1/2/4/8-byte length for major types 2..5",
-    "stubs": ["cbor2 -> vlib/cbormodel (differentially validated; semantic tags only with content cbor2 accepts); bytes.hex() -> provenance string (error messages)"],
+    "stubs": ["cbor2 -> vlib/cbormodel (differentially validated; semantic tags only with content cbor2 accepts); bytes.hex() -> provenance string (error messages)", "yaml.dump behind pretty_format_obj -> failure model (raises TypeError exactly for values containing the decoder's extension types; validated against the real library)"],
     "outside": [
         "wall time, memory and recursion depth of the C decoder (no engine here executes C symbolically); nesting depth of the tool's own recursive parser is not a symbolic variable either: "
         "the RecursionError escape at ~165 nested directives (F15, fixed) was found by a sub-agent's probe and is guarded by the concrete obligation deep_nesting_guard only",
         "nested (non top-level) absurd length fields are handed to cbor2 unchecked by design of validate_cbor; what the pre-check covers is stated in obligation length_precheck",
         "value skeletons deeper than 1 below a class (composition: containers hand each child its re-serialised item or its raw byte-string content, both inside the per-class domain)",
     ],
-    "assumptions": ["cbor2.loads raises only Exception subclasses on malformed input (caught by deserialize_cbor)"],
+    "assumptions": ["cbor2.loads raises only Exception subclasses on malformed input (caught by deserialize_cbor)", "memory: only explicit bytes(n)/bytearray(n) requests of more than 1 MiB made by the traced code are modelled (flagged and answered with MemoryError)"],
     "level_text": "Per node class, path-exhaustive symbolic execution of from_cbor().to_obj() over value skeletons with symbolic leaves: the only exceptions that escape on any path "
     "are ValueError and SUITError.  Bounded by skeleton depth and leaf sizes; composition argument for deeper nesting stated in DESIGN.md.",
 }
@@ -77,6 +77,7 @@ def obligations(tier):
     bf = [has_bitfield(c) for c in cls]
     obs = [
         Ob("cbor_model_validation", "V", "v_cbor", {}, 300, "cbor model vs real cbor2 incl. malformed inputs", twin=False, weight=5),
+        Ob("yaml_model_validation", "V", "v_yaml", {}, 120, "failure behaviour of yaml.dump (debug formatter) on real cbor2 values vs the model used by the harnesses", twin=False, weight=5),
         Ob("length_precheck", "E1", "h_precheck", {}, 600, "9-byte inputs, major types 2..5, length width 1/2/4/8: declared length > input length rejected before the decoder runs", weight=60),
     ]
     obs.append(Ob("deep_nesting_guard", "V", "v_deep", {}, 600, "CONCRETE regression guard for fixed finding F15 (not a solver claim): run-sequence / try-each nested 165, 400 and 3000 deep - only ValueError/SUITError may escape from_cbor().to_obj()", twin=False, weight=80))
@@ -85,8 +86,8 @@ def obligations(tier):
         obs.append(Ob(f"raw1_{n}", "E1", "h_fuzz", {"idx": i, "skel": "raw1"}, 600, "raw input of one symbolic byte (every value)", weight=15))
         short = n.split("_", 1)[1].replace("cbstr_", "")
         if tier == "thorough" or short in QUICK_D1:
-            for sk in ("list1", "list2", "map1", "tag1"):
-                obs.append(Ob(f"{sk}_{n}", "E1", "h_fuzz", {"idx": i, "skel": sk}, 900, f"skeleton {sk}: children any scalar by selector", weight=60))
+            for sk in ("list1", "list2", "map1", "tag1", "mapbig"):
+                obs.append(Ob(f"{sk}_{n}", "E1", "h_fuzz", {"idx": i, "skel": sk}, 900, f"skeleton {sk}: children any scalar by selector" if sk != "mapbig" else "one-entry map, unregistered integer / text / bytes key, value any unsigned integer in (2^20, 2^64): no exception escapes and no buffer of that size is requested", weight=60 if sk != "mapbig" else 10))
     return obs
 
 
@@ -128,6 +129,79 @@ def v_deep():
             if r is not None:
                 return dict(verdict="VIOLATED", paths=n, cex={"depth": depth, "code": code}, message=f"{r} escapes at nesting depth {depth}")
     return dict(verdict="CONFIRMED", paths=n, validated=n)
+
+
+class YamlFailureModel:
+    """PyYAML (C/third-party: executed concretely it would realise every symbolic leaf) stands behind the debug formatter
+    pretty_format_obj.  What matters for this property is whether formatting *raises*: yaml.dump represents every Python value
+    except the decoder's own extension types (CBORTag, undefined, simple values, frozendict - "cannot pickle", TypeError), wherever
+    they sit in the value.  The model returns a constant text or raises that TypeError; validated against the real yaml.dump on
+    real cbor2 values by obligation yaml_model_validation."""
+
+    @staticmethod
+    def _unrepresentable(x, depth=0):
+        from vlib import cbormodel as M
+
+        if isinstance(x, (M.CBORTag, M.SimpleValue, M.frozendict)):
+            return True
+        if depth > 6:
+            return False
+        if isinstance(x, dict):
+            for k, v in x.items():
+                if YamlFailureModel._unrepresentable(k, depth + 1) or YamlFailureModel._unrepresentable(v, depth + 1):
+                    return True
+            return False
+        if isinstance(x, (list, tuple, set, frozenset)):
+            for v in x:
+                if YamlFailureModel._unrepresentable(v, depth + 1):
+                    return True
+        return False
+
+    def dump(self, obj, *a, **kw):
+        if self._unrepresentable(obj):
+            raise TypeError("cannot pickle 'cbor2' extension object")
+        return "<yaml>"
+
+    def __getattr__(self, k):
+        import yaml
+
+        return getattr(yaml, k)
+
+
+def v_yaml():
+    """Model vs real: yaml.dump on real cbor2 values raises exactly where the model says."""
+    import datetime
+    import fractions
+
+    import cbor2
+    import yaml
+
+    from vlib import cbormodel as M
+
+    fd = cbor2.loads(cbor2.dumps(cbor2.CBORTag(1234, {1: 2}))).value
+    pairs = [
+        (cbor2.CBORTag(1234, 0), M.CBORTag(1234, 0)), (cbor2.undefined, M.SimpleValue(23)), (cbor2.CBORSimpleValue(99), M.SimpleValue(99)), (fd, M.frozendict([(1, 2)])),
+        ([cbor2.CBORTag(7, 0)], [M.CBORTag(7, 0)]), ({1: cbor2.CBORTag(7, 0)}, {1: M.CBORTag(7, 0)}), ((1, cbor2.undefined), (1, M.SimpleValue(23))),
+        (0, 0), (-(2**64), -(2**64)), (b"x", b"x"), ("t", "t"), (1.5, 1.5), (None, None), (True, True), ([1, [2, {3: b"4"}]], [1, [2, {3: b"4"}]]), ((1, 2), (1, 2)), ({1}, {1}),
+        (datetime.datetime(2020, 1, 1, tzinfo=datetime.timezone.utc), "sem"), (fractions.Fraction(1, 3), "sem"),
+    ]
+    bad = []
+    for real, model in pairs:
+        try:
+            yaml.dump(real)
+            r = None
+        except Exception as e:  # noqa
+            r = type(e).__name__
+        try:
+            YamlFailureModel().dump(model)
+            m = None
+        except Exception as e:  # noqa
+            m = type(e).__name__
+        if r != m:
+            bad.append((repr(real)[:40], r, m))
+    if bad:
+        return dict(verdict="ERROR", paths=len(pairs), message=f"yaml failure model disagrees with the real library: {bad[:3]}")
+    return dict(verdict="CONFIRMED", paths=len(pairs), validated=len(pairs))
 
 
 def v_cbor():
@@ -223,6 +297,7 @@ def h_fuzz(idx, skel="d0", exclude=()):
     from vlib.cbormodel import PairDict
 
     hexprov.install(CM)
+    CM.yaml = YamlFailureModel()  # debug formatting (yaml.dump) as its failure behaviour: see YamlFailureModel
     cls_list, names = classes()
     cls = cls_list[idx]
     keys = _map_keys(cls)
@@ -243,6 +318,10 @@ def h_fuzz(idx, skel="d0", exclude=()):
                 second = chx.pick("second", [0, b"\x01", "a", [], None])
                 first = chx.sym_bool("child_first")
                 v = [c, second] if first else [second, c]
+            elif skel == "mapbig":
+                big = chx.sym_int("big", (1 << 20) + 1, 2**64 - 1)
+                key = chx.pick("bkey", [99, "#x", "", b"k"])
+                v = PairDict([(key, big)])
             elif skel == "map1":
                 c, _ = _scalar(chx, cbormodel, "c")
                 kk = chx.sym_sel("keykind", 3)
@@ -269,6 +348,9 @@ def h_fuzz(idx, skel="d0", exclude=()):
             ok, exc = True, None
         except Exception as e:  # noqa
             ok, exc = False, type(e).__name__
+        if ok and chx.STATE.get("alloc_alarm"):
+            # the parser asked for a buffer of more than 1 MiB while looking at an input of a few dozen bytes (even if the error was swallowed)
+            ok, exc = False, "allocation far beyond the input size"
         return chx.conclude(ok, data=data, exc=exc)
 
     return harness
@@ -367,10 +449,36 @@ def replay(obligation, params, cex):
         return dict(reproduced=bool(bad), detail=f"declared {declared}, input {len(data)} bytes, raised {raised}, decoder called {len(calls)}x")
     cls_list, names = classes()
     cls = cls_list[params["idx"]]
+    # explicit buffer requests of the parser's own module, observed at the module seam (nothing that large is really allocated)
+    asked = []
+
+    class _Spy:
+        def __init__(self, typ):
+            self.typ = typ
+
+        def __call__(self, *a, **kw):
+            if len(a) == 1 and not kw and isinstance(a[0], int) and not isinstance(a[0], bool):
+                asked.append(a[0])
+                if a[0] > (1 << 20) + 256 * len(data):
+                    raise MemoryError("refused by the replay")
+            return self.typ(*a, **kw)
+
+        def __getattr__(self, k):
+            return getattr(self.typ, k)
+
+    CM.bytes, CM.bytearray = _Spy(bytes), _Spy(bytearray)
+
+    def big():
+        return [n for n in asked if n > (1 << 20) + 256 * len(data)]
+
     try:
         cls.from_cbor(data).to_obj()
+        if big():
+            return dict(reproduced=True, detail=f"{cls.__name__}.from_cbor({data.hex()}) ({len(data)} bytes of input) requests a buffer of {big()[0]} bytes")
         return dict(reproduced=False, detail="returns a model")
     except (ValueError, SUITError) as e:
+        if big():
+            return dict(reproduced=True, detail=f"{cls.__name__}.from_cbor({data.hex()}) ({len(data)} bytes of input) requests a buffer of {big()[0]} bytes before rejecting")
         return dict(reproduced=False, detail=f"clean rejection {type(e).__name__}")
     except Exception as e:  # noqa
         import traceback
